@@ -312,3 +312,105 @@ Proof.
     rewrite N. apply (follow_prev _ Srt l (q0 :: r) None); auto.
     rewrite app_length in L. simpl in L. lia.
 Qed.
+
+(* ---------------------------------------------------------------- iter_next / iter_prev, stated as iter_all is *)
+Lemma iter_next_exact_lemma p t c eq sub : InvW p -> (exists q, In q (points p) /\ pt q = t) ->
+  (forall t' o, In (t', o) (iter_next p t c eq sub) <->
+                ostart p o = Some t' /\ (if eq then t <= t' else t < t') /\ cls_match c sub o) /\
+  NoDup (iter_next p t c eq sub) /\
+  StronglySorted Z.le (map fst (iter_next p t c eq sub)).
+Proof.
+  intros I Hq. rewrite (iter_next_spec_lemma p t c eq sub I Hq).
+  destruct (iter_all_spec_lemma p c (Some (if eq then t else t + 1)) None sub SStart I) as [A [B C]].
+  split; [|split; auto].
+  intros t' o. rewrite A. simpl oref. unfold in_range. split.
+  - intros [H1 [[H2 _] H3]]. split; auto. split; auto. specialize (H2 _ eq_refl). destruct eq; lia.
+  - intros [H1 [H2 H3]]. split; auto. split; auto. split; [|intros; discriminate].
+    intros x E. inversion E; subst. destruct eq; lia.
+Qed.
+
+Lemma SS_lt_NoDup l : StronglySorted Z.lt l -> NoDup l.
+Proof.
+  induction l as [|a l IH]; intros S; [constructor|]. apply SS_cons_inv in S as [S1 S2].
+  constructor; auto. intros H. specialize (S2 a H). lia.
+Qed.
+
+Lemma flat_tagged_NoDup_gen s c sub qs :
+  NoDup (map pt qs) -> Forall (fun q => NoDup (preg s q)) qs -> NoDup (flat_map (tagged s c sub) qs).
+Proof.
+  induction qs as [|q r IH]; simpl; intros S F; [constructor|].
+  inversion S; subst. inversion F; subst.
+  apply NoDup_app_intro; auto.
+  - apply tagged_NoDup; auto.
+  - intros x Hx Hy. apply tagged_fst in Hx. apply in_flat_map in Hy as [q' [Hq' Hy]].
+    apply tagged_fst in Hy. apply H1. rewrite <- Hx, Hy. apply in_map; auto.
+Qed.
+
+(* the times of the objects of one point are all that point's time, so reversing the order of the points
+   reverses the sequence of times *)
+Lemma rev_repeat_Z (a : Z) n : rev (repeat a n) = repeat a n.
+Proof.
+  induction n as [|n IH]; simpl; auto. rewrite IH. clear IH.
+  induction n as [|n IH]; simpl; auto. rewrite IH. auto.
+Qed.
+
+Lemma map_fst_tagged s c sub q : map fst (tagged s c sub q) = repeat (pt q) (List.length (iter_reg (preg s q) c sub)).
+Proof. unfold tagged. rewrite map_map. simpl. induction (iter_reg (preg s q) c sub); simpl; congruence. Qed.
+
+Lemma times_flat_rev s c sub qs :
+  map fst (flat_map (tagged s c sub) (rev qs)) = rev (map fst (flat_map (tagged s c sub) qs)).
+Proof.
+  induction qs as [|q r IH]; simpl; auto.
+  rewrite flat_map_app, !map_app, rev_app_distr, IH. simpl. rewrite app_nil_r.
+  rewrite map_fst_tagged, rev_repeat_Z. auto.
+Qed.
+
+Lemma SS_snoc (R : Z -> Z -> Prop) l a : StronglySorted R l -> Forall (fun x => R x a) l -> StronglySorted R (l ++ [a]).
+Proof.
+  induction l as [|y l IH]; simpl; intros S F; [repeat constructor|].
+  inversion S; subst. inversion F; subst. constructor; auto.
+  apply Forall_app. split; auto.
+Qed.
+
+Lemma SS_le_rev_ge l : StronglySorted Z.le l -> StronglySorted Z.ge (rev l).
+Proof.
+  induction l as [|a l IH]; intros S; [constructor|]. inversion S; subst. simpl.
+  apply SS_snoc; auto. apply Forall_forall. intros x Hx. apply in_rev in Hx.
+  rewrite Forall_forall in H2. specialize (H2 x Hx). lia.
+Qed.
+
+(* iter_prev: precisely the matching objects registered (by start) before t -- or at t when eq --,
+   each once, in DESCENDING time order *)
+Lemma iter_prev_exact_lemma p t c eq sub : InvW p -> (exists q, In q (points p) /\ pt q = t) ->
+  (forall t' o, In (t', o) (iter_prev p t c eq sub) <->
+                ostart p o = Some t' /\ (if eq then t' <= t else t' < t) /\ cls_match c sub o) /\
+  NoDup (iter_prev p t c eq sub) /\
+  StronglySorted Z.ge (map fst (iter_prev p t c eq sub)).
+Proof.
+  intros I Hq. rewrite (iter_prev_spec_lemma p t c eq sub I Hq).
+  pose proof (iw_sorted p I) as S. set (x := if eq then t + 1 else t).
+  destruct (SS_split x (points p) S) as [Sb _].
+  split; [|split].
+  - intros t' o. rewrite flat_tagged_In. change (ostart p o) with (oref SStart p o).
+    rewrite (iw_reg p I), regs_In. split.
+    + intros [q [Hin [E [Ho Hc]]]]. apply in_rev in Hin. apply In_before in Hin as [Hin Hlt]; auto.
+      split; [eauto|]. split; auto. subst t'. unfold x in Hlt. destruct eq; lia.
+    + intros [[q [Hin [E Ho]]] [Hr Hc]]. exists q. split; [|auto]. apply -> in_rev. apply In_before; auto.
+      split; auto. unfold x. subst t'. destruct eq; lia.
+  - apply flat_tagged_NoDup_gen.
+    + rewrite map_rev. apply NoDup_rev. apply SS_lt_NoDup. auto.
+    + apply Forall_forall. intros q Hin. apply in_rev in Hin. apply In_before in Hin as [Hin _]; auto.
+      pose proof (iw_nodup p I) as N. rewrite Forall_forall in N. destruct (N q Hin). auto.
+  - rewrite times_flat_rev. apply SS_le_rev_ge. apply flat_tagged_sorted. auto.
+Qed.
+
+(* what "matching class" means, read off the class tree: type(o) is c, or (include_subclasses) issubclass *)
+Lemma cls_match_isinstance_lemma c o : valid_cls c ->
+  (cls_match (Some c) true o <-> ocls o = c \/ strict_descendant (ocls o) c) /\
+  (cls_match (Some c) false o <-> ocls o = c) /\
+  cls_match None false o.
+Proof.
+  intros Hc. destruct (subclasses_closed_lemma c Hc) as [_ [B _]]. unfold cls_match. split; [|split; [|exact I]].
+  - rewrite B. tauto.
+  - split; [intros [H|[H _]]; [auto|discriminate] | auto].
+Qed.
